@@ -400,9 +400,14 @@ def gen_itp(rng):
                   'charge': rng.choice([0.0, 1.0])} for j in range(n)]
         inters = []
         for _ in range(rng.randint(0, 4)):
-            typ = rng.choice(['bonds', 'angles', 'constraints', 'dihedrals', 'position_restraints', 'exclusions', 'virtual_sitesn'])
-            na = {'bonds': 2, 'constraints': 2, 'angles': 3, 'dihedrals': 4, 'position_restraints': 1, 'exclusions': rng.randint(2, 3),
-                  'virtual_sitesn': rng.randint(2, 4)}[typ]
+            # number of atoms per directive as in the GROMACS topology format (reference manual, table of interaction types)
+            gmx_atoms = {'bonds': 2, 'constraints': 2, 'angles': 3, 'dihedrals': 4, 'position_restraints': 1, 'exclusions': rng.randint(2, 3),
+                         'virtual_sitesn': rng.randint(2, 4), 'pairs': 2, 'pairs_nb': 2, 'settles': 1, 'virtual_sites1': 2,
+                         'virtual_sites2': 3, 'virtual_sites3': 4, 'virtual_sites4': 5, 'distance_restraints': 2,
+                         'dihedral_restraints': 4, 'orientation_restraints': 2, 'angle_restraints': 4, 'angle_restraints_z': 2}
+            typ = rng.choice(['bonds', 'angles', 'constraints', 'dihedrals', 'position_restraints', 'exclusions', 'virtual_sitesn']
+                             + (sorted(gmx_atoms) if rng.random() < 0.5 else []))
+            na = gmx_atoms[typ]
             if n < na:
                 continue
             refs = rng.sample(range(n), na)
